@@ -389,7 +389,9 @@ func (s *Syncer) handleRPC(id types.Specifier, stream *gateway.Stream, origin *P
 		if cs.Index.Height+1 < cs.Network.HardforkV2.RequireHeight {
 			s.resync(origin, "peer relayed a header that attaches to our tip and may belong to a v1 block")
 		}
-		go s.relayV2Header(r.Header, origin) // non-blocking
+		if s.firstRelay(bid) {
+			go s.relayV2Header(r.Header, origin) // non-blocking
+		}
 		return nil
 
 	case *gateway.RPCRelayV2BlockOutline:
